@@ -84,6 +84,10 @@ def parseCase0 (toks : List String) : Option Case := do
                       hs := if c.frozen then c.hs else setCL c.hs c.prog.status (-1) }
       | ["TR", k, v] => pure { c with prog := { c.prog with trailers := c.prog.trailers ++ [(← hx k, ← hx v)] } }
       | ["CC"] => pure { c with respClose := true }
+      | ["AM", n, msg] =>
+        -- `AbortWithMsg`: `Response.Reset()` (header, body, trailers, close mark back to the initial state), then the
+        -- status, `text/plain` and the message as body
+        pure { init with prog := { status := n.toNat!, body := .bytes (← hx msg) } }
       | ["H", k, v] =>
         -- `Header.Set(k, v)`: only `Content-Length` touches the framing fields (`setSpecialHeader`);
         -- `Transfer-Encoding` is ignored ("managed automatically"); anything else lands in `h` (taken from the dump)
